@@ -215,6 +215,13 @@ def c17_scalars(res, exe, wd, tier):
 
 # ------------------------------------------------------------------ C18
 
+def tool_keys(exe, wd):
+    """every key the tool knows: the numeric scan united with the kernel's KEY_* names the tool's name parser accepts"""
+    cand = os.path.join(wd, "key_candidates.json")
+    json.dump(sorted(kernel_codes().keys()), open(cand, "w"))
+    return [json.loads(l) for l in run_tmv(exe, ["keys", cand]).splitlines() if l.strip()]
+
+
 def kernel_codes(path="/usr/include/linux/input-event-codes.h"):
     """name -> code from the kernel header (KEY_* only, aliases resolved). The tool's names drop the KEY_ prefix."""
     import re
@@ -243,8 +250,8 @@ def c18(tier, replay_file=None):
         exe = build_harness()
         wd = workdir("%s-%s" % (prop, "replay" if replay_file else tier))
         kpath = os.path.join(wd, "keys.ndjson")
-        run_tmv(exe, ["keys"], stdout_path=kpath)
-        toolkeys = read_ndjson(kpath)
+        toolkeys = tool_keys(exe, wd)
+        write_ndjson(kpath, toolkeys)
         kc = kernel_codes()
         kc.pop("RESERVED", None)
         kc.pop("MAX", None)
@@ -450,7 +457,7 @@ def c15(tier, replay_file=None):
             cases = [{"id": "basic-%d" % c["id"], "layout": c["layout"]} for c in read_ndjson(gpath)]
             nbasic = len(cases)
             # one layout per key code the tool knows: every key name it can write must read back as the same key
-            keys = [json.loads(l) for l in run_tmv(exe, ["keys"]).splitlines() if l.strip()]
+            keys = tool_keys(exe, wd)
             for k in keys:
                 cases.append({"id": "key-%s" % k["name"], "layout": [{"from": [k["name"]], "to": [k["name"]], "repeat": {"kind": "Special", "keys": [k["name"]], "delay": 1, "interval": 1}, "absorbing": []},
                                                                     {"from": ["A", k["name"]] if k["name"] != "A" else ["B", "A"], "to": [], "repeat": {"kind": "Normal"}, "absorbing": ["A" if k["name"] != "A" else "B"]}]})
